@@ -54,6 +54,8 @@ def gen_case(rng, ctx):
     gen.OUTLIER["n_only_up_to"] = 7      # the exact oracle limits the number of elements; rankings are not limited
     thorough = ctx.tier == "thorough"
     kind = rng.choice(["D8", "D8", "D8", "identical", "D3", "D4", "D9", "D2", "D11", "big", "D21", "D21"])
+    if rng.random() < 0.012:
+        kind = "wide"
     nmax = 7 if thorough else 5
     if kind == "identical":
         n = rng.randint(2, nmax)
@@ -66,6 +68,19 @@ def gen_case(rng, ctx):
                 break
         else:
             scls, sch = "S1", [list(v) for v in ref.PRESETS["unifying"]]
+    elif kind == "wide":
+        # 129-140 elements, near-unanimous, with ties sitting exactly at positions 126-128 (limits of narrow integer types)
+        n = rng.choice([129, 130, 131, 140])
+        names = list(range(n))
+        rng.shuffle(names)
+        cut = min(rng.choice([126, 127, 127, 128]), n - 2)
+        base = [[e] for e in names[:cut]] + [names[cut:cut + 2]] + [[e] for e in names[cut + 2:]]
+        ds = [[list(b) for b in base] for _ in range(2)]
+        third = [[e] for e in names[:cut]] + [[names[cut]], [names[cut + 1]]] + [[e] for e in names[cut + 2:]]
+        ds.append(third)
+        if rng.random() < 0.5:
+            ds.append(gen.perturb(rng, base, 2))
+        scls, sch = gen.scheme(rng, "S1 S1 S11 S13")
     elif kind == "big":
         _, ds = gen.dataset(rng, classes="D8 D3 D2", n=rng.randint(8, 12), mmax=6)
         scls, sch = gen.scheme(rng, "S1 S2 S3 S3 S6 S9 S11")
@@ -147,7 +162,7 @@ def check_case(case, ctx):
         r2 = random.Random(case["seqseed"])
 
         def gen_runs():
-            for _ in range(150):
+            for _ in range(150 if n <= 20 else 12):
                 script = [r2.randrange(1 << 30) for _ in range(2 * n + 2)]
                 log, res = run(script)
                 yield [k for _, k in log], log, res
@@ -191,8 +206,8 @@ def check_case(case, ctx):
                     break
             if bad:
                 break
-        # (a') existential oracle on the public result alone
-        if not bad and not possible_output(r, table):
+        # (a') existential oracle on the public result alone (memoised search: small universes only)
+        if not bad and n <= 20 and not possible_output(r, table):
             ctx.violation("C11/result-is-not-a-possible-kwiksort-output", f"no sequence of pivots explains the result {r} "
                           "with the reference cheapest placements", sub, observed=r)
             bad = True
